@@ -1,11 +1,11 @@
 CONSTANTS
   Types <- T1
   TypeSeq <- T1s
-  Owners <- O2
-  SubOpts <- OptWeak
-  AutoOpts <- AutoTwo
-  RVs = {"none", "remove"}
-  UnsubModes = {"handler", "pair"}
+  Owners <- O3
+  SubOpts <- OptPrio
+  AutoOpts <- AutoNone
+  RVs <- RVplain
+  UnsubModes = {"handler"}
   Forms = {"inst"}
   NoErrs = {FALSE}
   RaiseTypes <- TA
@@ -15,7 +15,7 @@ CONSTANTS
   MaxUnsubs = 1
   MaxDepth = 2
   MaxOps = 1
-  WithDrop = TRUE
+  WithDrop = FALSE
   Probes = 1
   D = 3
 INIT Init
